@@ -52,8 +52,9 @@ func (f *Float) Decrease() {
 // HashKey returns a hash key for the given object.
 func (f *Float) HashKey() HashKey {
 	h := fnv.New64a()
-	h.Write([]byte(f.Inspect()))
-	return HashKey{Type: f.Type(), Value: h.Sum64()}
+	text := f.Inspect()
+	h.Write([]byte(text))
+	return HashKey{Type: f.Type(), Value: h.Sum64(), Text: text}
 }
 
 // JSON converts this object to a JSON string.
